@@ -642,6 +642,9 @@ def first_iteration():
                                          "%s.gn == 3 and %s.GetX() == 0.5" % (SD, item(1)),
                                          "vlen(%s._allTrials) == 3 and %s._allTrials[2] is %s" % (SD, SD, item(1)),
                                          "fresh(%s) and fresh(%s) and fresh(%s)" % (item(0), item(1), item(2)),
+                                         # ownership: the evaluated item owns freshly allocated point / coordinate / value holders
+                                         "fresh({i}.point) and fresh({i}.point.floatVariables) and fresh({i}.functionValues) and "
+                                         "fresh({i}.functionValues[0])".format(i=item(1)),
                                          "vecval(%s.point.floatVariables) == imgv(self.evolvent, 0.5)" % item(1),
                                          "fresh(self.evolvent.yValues) or self.evolvent.yValues is old(self.evolvent.yValues)",
                                          "%s.GetZ() == objf(%s, vecval(%s.point.floatVariables))" % (item(1), PB, item(1))],
